@@ -523,6 +523,26 @@ class Temporal:
 
 
 @dataclass
+class LateV1:
+    """Two classes that answer to one qualified name; LateV2 is 'imported' (added to the loaded classes) in the middle of a C14 history."""
+
+    class Meta:
+        name = "late"
+        namespace = NS_A
+
+    p: Optional[int] = field(default=None, metadata={"type": "Element"})
+
+
+@dataclass
+class LateV2:
+    class Meta:
+        name = "late"
+        namespace = NS_A
+
+    q: Optional[str] = field(default=None, metadata={"type": "Element"})
+
+
+@dataclass
 class RenA:
     """Models whose fields are RENAMED by metadata (python name != element / attribute name), chosen through a union / best match."""
 
